@@ -29,7 +29,7 @@ SPEC = dict(
                     '(apply_variable_mods~residues, over the contracts of the enumerator)',
                     'static builder, terminal rules (N-terminal / C-terminal rule maps, any mode): the terminus is modified iff a rule with a non-empty '
                     'modification list matches the first / last residue; skip mode keeps an existing terminal modification; everything but that '
-                    'terminus is untouched (apply_static_mods~nterm / ~cterm, 125 obligations each)',
+                    'terminus is untouched (apply_static_mods~nterm / ~cterm)',
                     'static builder (residue rules): modifications on every matched residue and on no other; skip mode keeps existing modifications; everything else untouched',
                     'variable builder: original residues and pre-existing modifications intact, changes only at offered positions, at most max_mods additional modified residues, terminates'],
     bounded_clauses=['static builder: per-site exactness, modes, idempotence', 'variable builder: exact enumeration (skip), weaker clause otherwise'],
